@@ -378,7 +378,7 @@ def generator_support(c):
 def contracts(tier):
     yield ("USBDataPacketGenerator", "ready_low_at_packet_start", generator_support)
     if tier == "quick":
-        cfgs = [("endpoint", 4), ("endpoint", 8), ("manager", 8), ("endpoint", 64)]
+        cfgs = [("endpoint", 4), ("endpoint", 8), ("manager", 8)]
     else:
         cfgs = [("endpoint", m) for m in (2, 4, 8, 16, 32, 64, 512)] + [("manager", m) for m in (4, 8, 16, 64)]
     for kind, m in cfgs:
